@@ -140,7 +140,22 @@ class Engine:
         self.touched = None
         self._install_trace()
 
+    ABSTRACT_PREFIXES = ('CircuitCalculator.SimpleCircuit.Display.print_',)
+
+    def _abstract_hook(self, fn, args, kwargs):
+        """Callees kept abstract: the display helpers (number formatting, property C18) are uninterpreted functions of their
+        bound arguments, so that callers are verified against the call boundary (which value, unit and options are passed)."""
+        from .values import AbstractCall
+        if fn.module is not None:
+            q = fn.module.name + '.' + fn.qualname
+            if q.startswith(self.ABSTRACT_PREFIXES):
+                env = self.I.bind(fn, args, kwargs)
+                names = [p.arg for p in fn.node.args.posonlyargs + fn.node.args.args + fn.node.args.kwonlyargs]
+                return True, AbstractCall(q, {n: env.vars[n] for n in names})
+        return False, None
+
     def _install_trace(self):
+        self.I.call_hook = self._abstract_hook
         orig = self.I.call_function
 
         def traced(fn, args, kwargs):
